@@ -232,6 +232,28 @@ def body(ctx, shape):
                 if shape["tier"] == "thorough" and clen == 2:
                     alt = encode(root, lambda n: {"append": extra_el, "extra": 4} if n is target else {"extra": 4})
                     decode_and_compare(ctx, alt, m, "trailing-element-long:" + _where(root, target))
+            # a trailing element may also carry a UNIVERSAL tag - where that cannot be mistaken for an
+            # absent OPTIONAL component of the same type (all components before it are present)
+            if _universal_ok(root, target):
+                for ut in (0x01, 0x02, 0x04, 0x05, 0x0A, 0x30):
+                    content = ctx.bytes(f"uc{i}_{ut}", 1)
+                    extra_el = bytes([ut, 1]) + content
+                    alt = encode(root, lambda n: {"append": extra_el} if n is target else {})
+                    decode_and_compare(ctx, alt, m, "trailing-universal-element:" + _where(root, target))
+
+
+def _universal_ok(root, node):
+    """appending a universal-tagged element after the components of `node` is unambiguous"""
+    if node.role == "control":
+        return node.kids[-1].tag == b"\x04" and len(node.kids) >= 2  # controlValue present
+    if node is root:
+        return True
+    t = node.tag[0]
+    if t == 0xA3 and len(node.tag) == 1 and any(k.tag == b"\x04" for k in node.kids):
+        # SaslCredentials (context 3 inside a bind request) or an equality filter: both end in OCTET STRING;
+        # unambiguous only when the optional credentials are present (2 strings)
+        return len(node.kids) >= 2
+    return True
 
 
 def _one(ctx, x):
